@@ -351,4 +351,24 @@ example (g : CerGen ℝ) (u : ℝ) (hu : ¬ 1 < (g.propose u).2) :
     g.energyInner [u] = some (g.propose u, []) :=
   cerenkov_energy_loop_first_accept g [] u [] (by simp) hu
 
+/-- the speed the optical offload reads (`ParticleTrackView::speed`, used for the Cerenkov
+    threshold `β·n > 1` and the photon emission times): for every kinetic energy `E ≥ 0` and
+    mass `m > 0` it is a physical β — in `[0, 1)`, and positive for a moving particle -/
+theorem particleSpeed_physical (e m : ℝ) (he : 0 ≤ e) (hm : 0 < m) :
+    0 ≤ particleSpeed e m ∧ particleSpeed e m < 1 ∧ (0 < e → 0 < particleSpeed e m) := by
+  unfold particleSpeed
+  simp only [NumR.sqrt_real, NumR.sq_real, NumR.hsub_real, NumR.hdiv_real, NumR.hadd_real,
+    NumR.lit1]
+  have hden : 0 < e + m := by linarith
+  have hg0 : 0 < m / (e + m) := div_pos hm hden
+  have hg1 : m / (e + m) ≤ 1 := by rw [div_le_one hden]; linarith
+  refine ⟨Real.sqrt_nonneg _, ?_, fun hpos => ?_⟩
+  · have : 1 - m / (e + m) * (m / (e + m)) < 1 := by nlinarith
+    calc Real.sqrt (1 - m / (e + m) * (m / (e + m))) < Real.sqrt 1 :=
+          Real.sqrt_lt_sqrt (by nlinarith) this
+      _ = 1 := Real.sqrt_one
+  · have hlt : m / (e + m) < 1 := by rw [div_lt_one hden]; linarith
+    apply Real.sqrt_pos.mpr
+    nlinarith
+
 end CelerVerif.Optical
